@@ -73,6 +73,11 @@ def _a_range(rng, s):
 
 
 def _a_freqs_same_count(rng, s):
+    cur = np.asarray(s.smooth_fa_freqs, dtype=float)
+    if len(cur) >= 3 and rng.random() < 0.35:
+        # same number of frequencies AND the same first / last frequency as now, different interior (a memo keyed on ends and count must not fire)
+        inner = sorted(round(rng.uniform(float(cur[0]), float(cur[-1])), 5) for _ in range(len(cur) - 2))
+        return {'freqs': [float(cur[0])] + inner + [float(cur[-1])]}
     return {'freqs': freqs(rng, len(s.smooth_fa_freqs) if rng.random() < 0.6 else None)}
 
 
